@@ -46,6 +46,7 @@ def run(idx: Index, rep: Report, tier: str):
                "state initialisation, controlled time evolution and the success probability of phase estimation are not decided")
     check_qft(idx, rep, tier)
     check_phase_readout(idx, rep)
+    check_iqpe_feedback(idx, rep, tier)
 
 
 def _dft_on(qubits: List[int], n_total: int, inverse: bool, swap: bool) -> np.ndarray:
@@ -131,3 +132,99 @@ def check_phase_readout(idx: Index, rep: Report):
                 bad.append((b, float(got)))
     rep.decide(not bad, rule, f, f.node, text=f"all {n} outcome strings of 1-5 bits: phase = 0.b1 b2 ... in binary",
                what="the phase assigned to an outcome string is its binary fraction, first character most significant", reason=f"e.g. {bad[:2]}")
+
+
+IQPE = "tangelo/algorithms/projective/iqpe.py"
+
+
+class _KickUnitary:
+    """stand-in for the controlled time evolution: build_circuit(n_steps, control) returns one marker gate KICK(n_steps) on the control qubit; on an eigenstate
+    with eigenphase phi the controlled evolution multiplies the control's |1> by exp(2 pi i phi n_steps)"""
+    _sa_model = True
+
+    def build_circuit(self, n_steps, control=None, method=None):
+        from ..consteval import make_gate
+        return _Circ([make_gate(["KICK", [control]], {"parameter": n_steps})])
+
+
+def check_iqpe_feedback(idx: Index, rep: Report, tier: str):
+    """The classical feedback of iterative phase estimation (IterativeQPEControl) folded as a class, with the controlled evolution replaced by its phase kickback
+    on an eigenstate.  For every eigenphase that an n-bit register represents exactly (n = 1..4) the ancilla qubit is propagated through the gates the control
+    object returns after each outcome: every measurement must be deterministic, and the outcomes - read the way IterativeQPESolver.simulate reads them - must
+    spell the eigenphase.  This decides the feedback rule (which earlier bits enter the phase correction of a later one, with which weight)."""
+    import cmath
+    from ..consteval import FuncVal
+    from ..rules.circuitsem import module_resolver
+    rule = "K9.iqpe-feedback"
+    cls = module_resolver(idx, IQPE)("IterativeQPEControl")
+    if cls is None:
+        raise AnalysisError("IterativeQPEControl not resolvable")
+    ctl = idx.function(f"{IQPE}::IterativeQPEControl.return_gates")
+    read = idx.cls(f"{IQPE}::IterativeQPESolver").methods["energy_estimation"]
+
+    def call(obj, meth, *args):
+        fo = cs.make_folder(idx, IQPE)
+        fo.env["np.pi"] = math.pi
+        return fo.call_funcval(FuncVal(obj.cls_val.methods[meth], bound_self=obj, home=IQPE), list(args), {})
+    n_cases = 0
+    for n_bits in (1, 2, 3, 4) if tier == "thorough" else (1, 2, 3, 4):
+        bad, side = [], []
+        for k in range(2 ** n_bits):
+            phi = k / 2 ** n_bits
+            try:
+                fo = cs.make_folder(idx, IQPE)
+                fo.env["np.pi"] = math.pi
+                obj = fo.instantiate(cls, [n_bits, 0, _KickUnitary()], {})
+                state = [1.0 + 0j, 0j]
+                outcome = "0"                       # the first (dummy) measurement of the ancilla in |0>
+                for _round in range(n_bits + 2):
+                    gates = call(obj, "return_gates", outcome)
+                    if not gates:
+                        break
+                    for g in gates:
+                        nm, par = g.fields["name"], g.fields["parameter"]
+                        a, b = state
+                        if nm == "X":
+                            state = [b, a]
+                        elif nm == "H":
+                            state = [(a + b) / math.sqrt(2), (a - b) / math.sqrt(2)]
+                        elif nm == "PHASE":
+                            state = [a, b * cmath.exp(1j * float(par))]
+                        elif nm == "KICK":
+                            state = [a, b * cmath.exp(2j * math.pi * phi * float(par))]
+                        elif nm == "CMEASURE":
+                            p1 = abs(b) ** 2
+                            if min(p1, 1 - p1) > 1e-9:
+                                raise _NotDeterministic(p1)
+                            outcome = "1" if p1 > 0.5 else "0"
+                            state = [0j, 1.0 + 0j] if outcome == "1" else [1.0 + 0j, 0j]
+                        else:
+                            raise AnalysisError(f"IterativeQPEControl.return_gates emits a gate this check does not model: {nm}")
+                else:
+                    raise AnalysisError("IterativeQPEControl.return_gates does not terminate after n_bits rounds")
+                measured = obj.fields["measurements"][obj.fields["n_runs"]]
+                recorded = obj.fields["energies"][obj.fields["n_runs"]]
+                got = cs.make_folder(idx, IQPE).run_function(read.node, {"self": Rec("IterativeQPESolver", {}), "bitstring": measured[::-1]})
+            except _NotDeterministic as nd:
+                bad.append(f"phase {phi}: an outcome has probability {nd.args[0]:.3f} (the correction does not cancel the lower bits)")
+                continue
+            except (Undecidable, Raised) as e:
+                raise AnalysisError(f"IterativeQPEControl not foldable: {e}")
+            if abs(float(got) - phi) > 1e-12:
+                bad.append(f"phase {phi}: outcomes {measured!r} are read as {float(got)}")
+            elif abs(float(recorded) - phi) > 1e-12:
+                side.append(f"phase {phi}: recorded {float(recorded)}")
+        n_cases += 2 ** n_bits
+        rep.decide(not bad, rule, ctl, ctl.node, text=f"{n_bits}-bit register: all {2 ** n_bits} exactly representable eigenphases",
+                   what="with the returned phase corrections every ancilla measurement is deterministic on an eigenstate, the outcomes spell the eigenphase (least significant bit "
+                        "first)",
+                   reason="; ".join(bad[:3]))
+        if side and not bad:
+            # not part of what simulate() returns (the property is stated on the returned phase): reported, not a violation
+            rep.info(rule, ctl, ctl.node, text=f"{n_bits}-bit register: running record `energies` of the control object",
+                     what="the control object's own record of the phase", reason=f"differs from the eigenphase for {len(side)} phases, e.g. {side[0]} (each bit is weighted one place too high)")
+    rep.floor("iQPE eigenphases propagated", n_cases, 30)
+
+
+class _NotDeterministic(Exception):
+    pass
